@@ -113,6 +113,10 @@ Definition ld (k : slot_kind) (i : Z) (d : dstate) : option dres := slot_load (g
 Definition st (k : slot_kind) (i : Z) (d : dstate) : option dres :=
   do (s', d') <- slot_store (get_slot k d) i d; ok (put_slot k d' s').
 
+(* a stack index popped from the stack, as nat: indices beyond the stack are cut to length + 1 first, so that evaluating
+   the model never builds a unary number of the size of an arbitrary 32-bit operand (same result: lemmas sidx_nth, sidx_roll, sidx_reverse_top in VM/ExecSpec.v) *)
+Definition sidx (n : Z) (es : list item) : nat := Z.to_nat (Z.min n (zlen es + 1)).
+
 Definition param0 (p : list Z) : option Z := match p with b :: _ => Some b | [] => None end.
 
 (* ---------- stack shuffles (stack.go) ---------- *)
@@ -516,14 +520,14 @@ Definition exec_data_opt (e : env) (op : opcode) (p : list Z) (d : dstate) : opt
   | XDROP =>
       do (n, d) <- pop_i32 d;
       if n <? 0 then None else
-      do it <- nth_error (d_es d) (Z.to_nat n);
-      ok (d_remove it (set_es d (remove_nth (Z.to_nat n) (d_es d))))
+      do it <- nth_error (d_es d) (sidx n (d_es d));
+      ok (d_remove it (set_es d (remove_nth (sidx n (d_es d)) (d_es d))))
   | CLEAR => ok (d_remove_list (rev (d_es d)) (set_es d []))
   | DUP => do it <- nth_error (d_es d) 0; ok (push it d)
   | OVER => do it <- nth_error (d_es d) 1; ok (push it d)
   | PICK =>
       do (n, d) <- pop_i32 d;
-      if n <? 0 then None else do it <- nth_error (d_es d) (Z.to_nat n); ok (push it d)
+      if n <? 0 then None else do it <- nth_error (d_es d) (sidx n (d_es d)); ok (push it d)
   | TUCK => match d_es d with
             | a :: _ :: _ => ok (d_add a (set_es d (insert_at 2 a (d_es d))))
             | _ => None
@@ -532,12 +536,12 @@ Definition exec_data_opt (e : env) (op : opcode) (p : list Z) (d : dstate) : opt
   | ROT => do es <- roll 2 (d_es d); ok (set_es d es)
   | ROLL =>
       do (n, d) <- pop_i32 d;
-      if n <? 0 then None else do es <- roll (Z.to_nat n) (d_es d); ok (set_es d es)
+      if n <? 0 then None else do es <- roll (sidx n (d_es d)) (d_es d); ok (set_es d es)
   | REVERSE3 => do es <- reverse_top 3 (d_es d); ok (set_es d es)
   | REVERSE4 => do es <- reverse_top 4 (d_es d); ok (set_es d es)
   | REVERSEN =>
       do (n, d) <- pop_i32 d;
-      if n <? 0 then None else do es <- reverse_top (Z.to_nat n) (d_es d); ok (set_es d es)
+      if n <? 0 then None else do es <- reverse_top (sidx n (d_es d)) (d_es d); ok (set_es d es)
   (* slots *)
   | INITSSLOT =>
       do n <- param0 p;
